@@ -153,11 +153,11 @@ pub struct Fail {
 
 /// The functions the *user* of the bindings must define are, by the C generator's documented
 /// convention, (1) every prototype in a `// Exported Functions from ...` section of the header
-/// and (2) the `exports_..._destructor` prototype of every exported resource.  The header is
+/// and (2) the non-`extern` `..._destructor` prototype of every exported resource.  The header is
 /// regular (one prototype per line); scan it and return a translation unit defining each of
 /// them with an aborting body, plus the number of stubs.
 pub fn export_stubs(header_name: &str, header: &str) -> (String, usize) {
-    let mut out = format!("#include \"{header_name}\"\n#include <stdlib.h>\n\n");
+    let mut out = format!("#include \"{header_name}\"\n\n");
     let mut n = 0;
     let mut in_exports = false;
     for line in header.lines() {
@@ -173,7 +173,7 @@ pub fn export_stubs(header_name: &str, header: &str) -> (String, usize) {
         if t.is_empty()
             || t.starts_with("//")
             || t.starts_with('#')
-            || t.starts_with("typedef")
+            || t.starts_with("typedef ")
             || t.starts_with("extern ")
             || t.starts_with("static ")
             || !t.ends_with(");")
@@ -189,19 +189,19 @@ pub fn export_stubs(header_name: &str, header: &str) -> (String, usize) {
         else {
             continue;
         };
-        if !name.starts_with("exports_") {
-            continue;
-        }
         if !(in_exports || name.ends_with("_destructor")) {
             continue;
         }
         n += 1;
-        out.push_str(&format!("{proto} {{\n  abort();\n}}\n\n"));
+        // __builtin_trap, not abort(): a parameter may legitimately be called `abort`
+        out.push_str(&format!("{proto} {{\n  __builtin_trap();\n}}\n\n"));
     }
     (out, n)
 }
 
 pub struct Built {
+    pub t_clang: f64,
+    pub t_link: f64,
     pub module: Vec<u8>,
     pub n_export_stubs: usize,
     pub c_bytes: usize,
@@ -235,6 +235,7 @@ pub fn build(tc: &Toolchain, dir: &Path, files: &[(String, Vec<u8>)]) -> Result<
     let header = String::from_utf8_lossy(&files.iter().find(|f| f.0 == h).unwrap().1).into_owned();
     let csrc = String::from_utf8_lossy(&files.iter().find(|f| f.0 == c).unwrap().1).into_owned();
     let inc = tc.include.to_str().unwrap();
+    let t0 = std::time::Instant::now();
     let mut args: Vec<&str> = CLANG_FLAGS.to_vec();
     args.extend(["-isystem", inc, "-I", ".", c.as_str(), "-o", "bindings.o"]);
     let out = run(&tc.clang, &args, Some(dir), 120_000);
@@ -251,6 +252,8 @@ pub fn build(tc: &Toolchain, dir: &Path, files: &[(String, Vec<u8>)]) -> Result<
         return Err(Fail { stage: "clang-user", msg: trim_msg(&out.text) });
     }
     let libc = tc.libc_o.to_str().unwrap();
+    let t_clang = t0.elapsed().as_secs_f64();
+    let t1 = std::time::Instant::now();
     let mut args: Vec<&str> = LD_FLAGS.to_vec();
     args.extend(["bindings.o", "stubs.o", o.as_str(), libc, "-o", "core.wasm"]);
     let out = run(&tc.wasm_ld, &args, Some(dir), 120_000);
@@ -258,7 +261,7 @@ pub fn build(tc: &Toolchain, dir: &Path, files: &[(String, Vec<u8>)]) -> Result<
         return Err(Fail { stage: "link", msg: trim_msg(&out.text) });
     }
     let module = std::fs::read(dir.join("core.wasm")).map_err(|e| Fail { stage: "machinery", msg: e.to_string() })?;
-    Ok(Built { module, n_export_stubs: n_stubs, c_bytes: csrc.len() })
+    Ok(Built { t_clang, t_link: t1.elapsed().as_secs_f64(), module, n_export_stubs: n_stubs, c_bytes: csrc.len() })
 }
 
 pub fn check_component(module: &[u8], want: &compo::WorldSig) -> Result<usize, Fail> {
